@@ -233,8 +233,9 @@ def base_plan(tier, seed, classes=('pess', 'opt', 'mcs'), opt_scripts=True, thre
         # seeded random schedules (any number of preemptions) of the 3-thread products complement the bounded search
         if three:
             plan.append((cls, programs.cross3(cls, CONV + ('X',), MODES3, MODES3, tag='r3'), dict(mode='random', max_exec=12 if q else 300)))
-        if not q:
-            plan.append((cls, programs.random_programs(cls, 40, seed), dict(pb=2, max_exec=4000)))
+        rp = programs.random_programs(cls, 8 if q else 40, seed)
+        plan.append((cls, rp, dict(pb=1 if q else 2, max_exec=150 if q else 4000)))
+        plan.append((cls, rp, dict(mode='random', max_exec=40 if q else 400)))
     return plan
 
 
@@ -822,7 +823,7 @@ def ep_prog(name, n, threads, params='', hashes=None):
     return 'P %s cap=%d epoch%s%s | %s' % (name, n, hp, (' ' + params) if params else '', ' | '.join(threads))
 
 
-def epoch_programs(tier, which):
+def epoch_programs(tier, which, seed=0):
     q = tier == 'quick'
     plan = []
     if 'pin' in which:
@@ -851,6 +852,13 @@ def epoch_programs(tier, which):
         progs = [ep_prog('ep_hand_a', 3, ['G GIVE:1 BAR:8:3 BAR:9:3', 'G TAKE:1 CUR D BAR:8:3 BAR:9:3', 'F BAR:8:3 F F BAR:9:3']),
                  ep_prog('ep_hand_b', 3, ['G GIVE:1 BAR:8:3 BAR:9:3', 'TAKE:1 MV D BAR:8:3 BAR:9:3', 'F F BAR:8:3 F F BAR:9:3'])]
         plan.append((3, progs, dict(pb=2 if q else 3, max_exec=1500 if q else 20000)))
+    if 'rand' in which:
+        rp = conc_epoch_programs(10 if q else 80, seed)
+        for cap in (2, 3):
+            ps = [p for c, p in rp if c == cap]
+            if ps:
+                plan.append((cap, ps, dict(pb=1 if q else 2, max_exec=150 if q else 3000)))
+                plan.append((cap, ps, dict(mode='random', max_exec=60 if q else 600)))
     if 'list' in which:
         progs = [ep_prog('ep_list_a', 3, ['GL RL D GL RL D', 'G D', 'F F F']),
                  ep_prog('ep_list_b', 3, ['GL RL RL D', 'GL RL D', 'F F'])]
@@ -932,6 +940,38 @@ def epoch_hb_describe(ex, h, line, bad):
             ['ev:hb-' + str(bad.get('e')), 'status:' + ex.status])
 
 
+def conc_epoch_programs(n_prog, seed, tag='r'):
+    """seeded random concurrent programs: two workers (a third generation reuses their IDs) create / move / read / drop guards
+    and read the counters while the coordinator forwards a few times (never far enough to retire a list node)"""
+    import random
+    rnd = random.Random(seed * 7919 + 13)
+    out = []
+    for k in range(n_prog):
+        ths = []
+        for w in range(2):
+            ops = []
+            has = False
+            for _ in range(rnd.randint(2, 5)):
+                if has:
+                    op = rnd.choice(('D', 'D', 'RL', 'MV', 'CUR', 'MIN', 'GR'))
+                    if op in ('D', 'GR'):
+                        has = False
+                else:
+                    op = rnd.choice(('G', 'GL', 'GL', 'CUR', 'MIN'))
+                    if op in ('G', 'GL'):
+                        has = True
+                ops.append(op)
+            if has:
+                ops.append('D')
+            ths.append(' '.join(ops))
+        coord = ' '.join(rnd.choice(('F', 'F', 'F F', 'FQ:3 F', 'CUR', 'MIN')) for _ in range(rnd.randint(2, 4)))
+        cap = rnd.choice((2, 3))
+        hashes = [0, 0, 1] if cap == 2 else [rnd.randrange(3) for _ in range(3)]
+        late = ' || ' + rnd.choice(('G CUR D', 'GL RL D', 'G MV D')) + ' | F F' if rnd.random() < 0.5 else ''
+        out.append((cap, ep_prog('ep_%s%d_%d' % (tag, seed, k), cap, ths + [coord + late], hashes=hashes)))
+    return out
+
+
 EPOCH_ASSUME = ['one coordinator thread; at most one guard per thread at a time (the library keeps one Epoch per thread)',
                 'worker and coordinator threads are real OS threads under the baton scheduler; scheduling points at every atomic '
                 'operation and at the guarded hooks (heartbeat re-binding, slot scan, list-node retirement, list walk hops)',
@@ -941,7 +981,7 @@ EPOCH_ASSUME = ['one coordinator thread; at most one guard per thread at a time 
 
 @register('C04')
 def check_c04(prop, tier, seed):
-    res = thread_check(prop, tier, seed, epoch_programs(tier, ('pin',)), epoch_history, 'EpochAbsTrace.tla',
+    res = thread_check(prop, tier, seed, epoch_programs(tier, ('pin', 'rand'), seed), epoch_history, 'EpochAbsTrace.tla',
                        epoch_cfg(['CkPin'], prop), epoch_describe, statuses=('ok', 'stuck'))
     res['assumptions'] = EPOCH_ASSUME
     return res
@@ -949,7 +989,7 @@ def check_c04(prop, tier, seed):
 
 @register('C16')
 def check_c16(prop, tier, seed):
-    res = thread_check(prop, tier, seed, epoch_programs(tier, ('mono', 'pin')), epoch_history, 'EpochAbsTrace.tla',
+    res = thread_check(prop, tier, seed, epoch_programs(tier, ('mono', 'pin', 'rand'), seed), epoch_history, 'EpochAbsTrace.tla',
                        epoch_cfg(['CkMono'], prop), epoch_describe, statuses=('ok', 'stuck'))
     res['assumptions'] = EPOCH_ASSUME
     return res
@@ -957,7 +997,7 @@ def check_c16(prop, tier, seed):
 
 @register('C17')
 def check_c17(prop, tier, seed):
-    res = thread_check(prop, tier, seed, epoch_programs(tier, ('list',)), epoch_history, 'EpochAbsTrace.tla',
+    res = thread_check(prop, tier, seed, epoch_programs(tier, ('list', 'rand'), seed), epoch_history, 'EpochAbsTrace.tla',
                        epoch_cfg(['CkList'], prop), epoch_describe, statuses=('ok', 'stuck'),
                        extra=[('pubhb', epoch_hb_stream, 'HBTrace.tla', os.path.join(SPEC, 'cfg', 'HBTrace.cfg'), epoch_hb_describe)])
     res['assumptions'] = EPOCH_ASSUME + ['publication of a list (written once, before its epoch becomes current) is checked for '
